@@ -672,4 +672,729 @@ theorem failed_command_inert (c : Ctx) (s : State) (conn ref : Nat) (m : Bool) (
       | exact onDb_inert s ref _ (by inert) h
       | (intro r; first | rfl | trivial)
 
+
+/-! ## the invariant is kept by every command: no empty key, no duplicate key, in every reachable state -/
+
+theorem inv_dirtyUnlessQuirk (c : Ctx) (db : Db) (h : db.Inv) : (dirtyUnlessQuirk c db).Inv := by
+  unfold dirtyUnlessQuirk; split
+  · exact h
+  · exact inv_setDirty _ h
+
+theorem live_nonEmpty {db : Db} {now : Int} {k : Bytes} {e : Entry} (hi : db.Inv) (h : db.live now k = some e) :
+    e.val.nonEmpty = true :=
+  hi.noEmpty (k, e) (mem_of_alookup k db.keys e (live_some_raw h).1)
+
+theorem srcLookup_nonEmpty {c : Ctx} {db : Db} {k : Bytes} {e : Entry} (hi : db.Inv) (h : srcLookup c db k = some e) :
+    e.val.nonEmpty = true := by
+  unfold srcLookup at h
+  split at h
+  · exact hi.noEmpty (k, e) (mem_of_alookup k db.keys e h)
+  · exact live_nonEmpty hi h
+
+theorem listOf_nonEmpty {c : Ctx} {db : Db} {k : Bytes} {e : Entry} {l : List Bytes} (hi : db.Inv)
+    (h : listOf c db k = .ok (some (e, l))) : l ≠ [] := by
+  unfold listOf at h
+  split at h
+  · rename_i e' hl
+    split at h
+    · rename_i l' hv
+      cases h
+      have := live_nonEmpty hi hl
+      rw [hv] at this
+      intro hn; subst hn; simp [Val.nonEmpty] at this
+    · cases h
+  · cases h
+
+theorem bump_inv (c : Ctx) (db : Db) (e : Entry) (hi : db.Inv) : (bump c db e).1.Inv := by
+  unfold bump; split
+  · exact hi
+  · exact ⟨hi.unique, hi.noEmpty⟩
+
+theorem bump_val (c : Ctx) (db : Db) (e : Entry) : (bump c db e).2.val = e.val := by
+  unfold bump; split <;> rfl
+
+theorem inv_poke_bump {c : Ctx} {db db1 : Db} {e e1 : Entry} (k : Bytes) (e' : Entry) (hi : db.Inv)
+    (hb : bump c db e = (db1, e1)) (hv : e'.val.nonEmpty = true) : (db1.poke k e').Inv := by
+  have := bump_inv c db e hi
+  rw [hb] at this
+  exact inv_poke _ _ _ this hv
+
+theorem bump_val' {c : Ctx} {db db1 : Db} {e e1 : Entry} (hb : bump c db e = (db1, e1)) : e1.val = e.val := by
+  have := bump_val c db e
+  rw [hb] at this
+  exact this
+
+attribute [local irreducible] bump
+
+theorem setKey_inv (c : Ctx) (db : Db) (k v : Bytes) (o : SetOpts) (a b : Bool) (h : db.Inv) :
+    (setKey c db k v o a b).1.Inv := by
+  unfold setKey
+  repeat' (first | assumption | rfl | (refine inv_put _ _ _ _ ?_ ?_) | split | dsimp only)
+
+theorem putAll_inv (kvs : List (Bytes × Bytes)) : ∀ (db : Db), db.Inv → (putAll db kvs).Inv := by
+  induction kvs with
+  | nil => intro db h; exact h
+  | cons p r ih =>
+    intro db h
+    obtain ⟨k, v⟩ := p
+    unfold putAll
+    exact ih _ (inv_put _ _ _ _ h rfl)
+
+theorem saddAll_nonEmpty (ms : List Bytes) : ∀ (s : List Bytes) (n : Nat), (ms ≠ [] ∨ s ≠ []) → (saddAll ms s n).1 ≠ [] := by
+  induction ms with
+  | nil => intro s n h; rcases h with h | h; exact absurd rfl h; exact h
+  | cons m r ih =>
+    intro s n _
+    unfold saddAll
+    split
+    · rename_i hc
+      apply ih; right; intro hn; subst hn; simp at hc
+    · apply ih; right; simp
+
+theorem ainsert_ne_nil {α} (k : Bytes) (v : α) (l : List (Bytes × α)) : ainsert k v l ≠ [] := by
+  cases l with
+  | nil => simp [ainsert]
+  | cons p r =>
+    obtain ⟨k', v'⟩ := p
+    unfold ainsert
+    split <;> simp
+
+theorem hsetAll_nonEmpty (nx : Bool) (fvs : List (Bytes × Bytes)) : ∀ (h : List (Bytes × Bytes)) (n : Nat),
+    (fvs ≠ [] ∨ h ≠ []) → (hsetAll nx fvs h n).1 ≠ [] := by
+  induction fvs with
+  | nil => intro h n hh; rcases hh with hh | hh; exact absurd rfl hh; exact hh
+  | cons p r ih =>
+    intro h n _
+    obtain ⟨f, v⟩ := p
+    unfold hsetAll
+    split
+    · rename_i x hl
+      split
+      · apply ih; right; intro hn; subst hn; simp [alookup] at hl
+      · apply ih; right; exact ainsert_ne_nil _ _ _
+    · apply ih; right; exact ainsert_ne_nil _ _ _
+
+theorem nonEmpty_list {l : List Bytes} (h : l ≠ []) : (Val.list l).nonEmpty = true := by
+  cases l with
+  | nil => exact absurd rfl h
+  | cons _ _ => rfl
+theorem nonEmpty_set {l : List Bytes} (h : l ≠ []) : (Val.set l).nonEmpty = true := by
+  cases l with
+  | nil => exact absurd rfl h
+  | cons _ _ => rfl
+theorem nonEmpty_hash {l : List (Bytes × Bytes)} (h : l ≠ []) : (Val.hash l).nonEmpty = true := by
+  cases l with
+  | nil => exact absurd rfl h
+  | cons _ _ => rfl
+
+macro "keepinv" : tactic => `(tactic| (repeat' (first
+  | assumption
+  | rfl
+  | (exact setKey_inv _ _ _ _ _ _ _ (by assumption))
+  | (exact putAll_inv _ _ (by assumption))
+  | (refine inv_put _ _ _ _ ?_ ?_)
+  | (refine inv_setDirty _ ?_)
+  | (refine inv_del _ _ ?_)
+  | (refine inv_upd _ _ _ _ _ ?_)
+  | (refine inv_dirtyUnlessQuirk _ _ ?_)
+  | (refine inv_poke_bump _ _ (by assumption) (by assumption) ?_)
+  | (exact live_nonEmpty (by assumption) (by assumption))
+  | (exact srcLookup_nonEmpty (by assumption) (by assumption))
+  | (rw [bump_val' (by assumption)]; exact live_nonEmpty (by assumption) (by assumption))
+  | (refine nonEmpty_hash (ainsert_ne_nil _ _ _))
+  | (refine inv_poke _ _ _ (bump_inv _ _ _ (by assumption)) ?_)
+  | (simp only [bump_val]; exact live_nonEmpty (by assumption) (by assumption))
+  | (refine nonEmpty_list ?_; rw [ne_eq, List.set_eq_nil_iff]; exact listOf_nonEmpty (by assumption) (by assumption))
+  | (simp [Val.nonEmpty, *]; done)
+  | split
+  | dsimp only [R.ok])))
+
+section
+variable (c : Ctx) (db : Db) (k k2 v f m : Bytes) (i j : Int) (o : SetOpts) (b b2 : Bool)
+  (ks : List Bytes) (kvs : List (Bytes × Bytes)) (oi oj ok' : Option Int) (n : Nat)
+  (h : db.Inv)
+include h
+
+theorem set_inv : (cmdSet c db k v o b).db.Inv := by unfold cmdSet; keepinv
+theorem get_inv : (cmdGet c db k).db.Inv := by unfold cmdGet; keepinv
+theorem getdel_inv : (cmdGetDel c db k).db.Inv := by unfold cmdGetDel; keepinv
+theorem getex_inv (e : Option ExpArg) : (cmdGetEx c db k e).db.Inv := by unfold cmdGetEx; keepinv
+theorem strlen_inv : (cmdStrlen c db k).db.Inv := by unfold cmdStrlen; keepinv
+theorem getrange_inv : (cmdGetRange c db k i j).db.Inv := by unfold cmdGetRange; keepinv
+theorem setrange_inv : (cmdSetRange c db k i v).db.Inv := by unfold cmdSetRange; keepinv
+theorem incrby_inv : (cmdIncrBy c db k i).db.Inv := by unfold cmdIncrBy; keepinv
+theorem mget_inv : (cmdMGet c db ks).db.Inv := by unfold cmdMGet; keepinv
+theorem mset_inv : (cmdMSet c db kvs b).db.Inv := by unfold cmdMSet; keepinv
+theorem incrbyfloat_inv : (cmdIncrByFloat c db k v).db.Inv := by unfold cmdIncrByFloat; keepinv
+theorem push_inv (hks : ks ≠ []) : (cmdPush c db k ks b b2).db.Inv := by
+  unfold cmdPush; keepinv
+  all_goals (refine nonEmpty_list ?_; simpa using hks)
+theorem llen_inv : (cmdLLen c db k).db.Inv := by unfold cmdLLen; keepinv
+theorem lindex_inv : (cmdLIndex c db k i).db.Inv := by unfold cmdLIndex; keepinv
+theorem lrange_inv : (cmdLRange c db k i j).db.Inv := by unfold cmdLRange; keepinv
+theorem lset_inv : (cmdLSet c db k i v).db.Inv := by unfold cmdLSet; keepinv
+theorem linsert_inv : (cmdLInsert c db k b v m).db.Inv := by unfold cmdLInsert; keepinv
+theorem lpos_inv : (cmdLPos c db k v oi oj ok').db.Inv := by unfold cmdLPos; keepinv
+theorem hset_inv (hkvs : kvs ≠ []) : (cmdHSet c db k kvs b b2).db.Inv := by
+  unfold cmdHSet; keepinv
+  exact nonEmpty_hash (hsetAll_nonEmpty _ _ _ _ (Or.inl hkvs))
+theorem hget_inv : (cmdHGet c db k f).db.Inv := by unfold cmdHGet; keepinv
+theorem hmget_inv : (cmdHMGet c db k ks).db.Inv := by unfold cmdHMGet; keepinv
+theorem hgetall_inv : (cmdHGetAll c db k).db.Inv := by unfold cmdHGetAll; keepinv
+theorem hkeys_inv : (cmdHKeys c db k b).db.Inv := by unfold cmdHKeys; keepinv
+theorem hlen_inv : (cmdHLen c db k).db.Inv := by unfold cmdHLen; keepinv
+theorem hexists_inv : (cmdHExists c db k f).db.Inv := by unfold cmdHExists; keepinv
+theorem hstrlen_inv : (cmdHStrlen c db k f).db.Inv := by unfold cmdHStrlen; keepinv
+theorem hincrby_inv : (cmdHIncrBy c db k f i).db.Inv := by unfold cmdHIncrBy; keepinv
+theorem hincrbyfloat_inv : (cmdHIncrByFloat c db k f v).db.Inv := by unfold cmdHIncrByFloat; keepinv
+theorem sadd_inv (hks : ks ≠ []) : (cmdSAdd c db k ks).db.Inv := by
+  unfold cmdSAdd; keepinv
+  exact nonEmpty_set (saddAll_nonEmpty _ _ _ (Or.inl hks))
+theorem scard_inv : (cmdSCard c db k).db.Inv := by unfold cmdSCard; keepinv
+theorem sismember_inv : (cmdSIsMember c db k m).db.Inv := by unfold cmdSIsMember; keepinv
+theorem smismember_inv : (cmdSMIsMember c db k ks).db.Inv := by unfold cmdSMIsMember; keepinv
+theorem smembers_inv : (cmdSMembers c db k).db.Inv := by unfold cmdSMembers; keepinv
+theorem smove_inv : (cmdSMove c db k k2 m).db.Inv := by unfold cmdSMove; keepinv
+theorem setalgebra_inv (op : SetOp) : (cmdSetAlgebra c db op ks).db.Inv := by unfold cmdSetAlgebra; keepinv
+theorem setalgebrastore_inv (op : SetOp) : (cmdSetAlgebraStore c db op k ks).db.Inv := by unfold cmdSetAlgebraStore; keepinv
+theorem sintercard_inv : (cmdSInterCard c db i ks j).db.Inv := by unfold cmdSInterCard; keepinv
+theorem exists_inv : (cmdExists c db ks).db.Inv := by unfold cmdExists; keepinv
+theorem type_inv : (cmdType c db k).db.Inv := by unfold cmdType; keepinv
+theorem rename_inv : (cmdRename c db k k2 b).db.Inv := by unfold cmdRename; keepinv
+theorem copy_inv : (cmdCopy c db k k2 b).db.Inv := by unfold cmdCopy; keepinv
+theorem expireat_inv (opt : ExpireOpt) : (cmdExpireAt c db k i opt).db.Inv := by unfold cmdExpireAt; keepinv
+theorem persist_inv : (cmdPersist c db k).db.Inv := by unfold cmdPersist; keepinv
+theorem ttl_inv (kind : TtlKind) : (cmdTtl c db k kind).db.Inv := by unfold cmdTtl; keepinv
+theorem getbit_inv : (cmdGetBit c db k i).db.Inv := by unfold cmdGetBit; keepinv
+theorem bitpos_inv (st : Option Int) (en : Option (Int × Bool)) : (cmdBitPos c db k i st en).db.Inv := by unfold cmdBitPos; keepinv
+theorem bitop_inv : (cmdBitOp c db k k2 ks).db.Inv := by unfold cmdBitOp; keepinv
+theorem bitfieldParsed_inv (ps : List BfParsed) : (cmdBitfieldParsed c db k ps).db.Inv := by unfold cmdBitfieldParsed; keepinv
+
+theorem append_inv : (cmdAppend c db k v).db.Inv := by
+  unfold cmdAppend
+  have hk := setKey_inv c db k v { get := true } true (!c.q.appendDropsTtl) h
+  split
+  rename_i heq
+  rw [heq] at hk
+  split
+  · exact h
+  · exact hk
+theorem decrby_inv : (cmdDecrBy c db k i).db.Inv := by
+  unfold cmdDecrBy
+  split
+  · exact h
+  · exact incrby_inv c db k _ h
+theorem del_inv : (cmdDel c db ks b).db.Inv := by
+  unfold cmdDel
+  have key : ∀ (ks : List Bytes) (acc : Db × Nat), acc.1.Inv →
+      (ks.foldl (fun (acc : Db × Nat) (k : Bytes) =>
+        match acc with
+        | (db, n) =>
+          match db.live c.now k with
+          | some e =>
+            if (b || !c.q.unlinkKeepsObject) = true then (db.del k, n + 1)
+            else (db.poke k { val := e.val, exp := some 0, id := e.id }, n + 1)
+          | none => if b = true then (db.del k, n) else (db, n)) acc).1.Inv := by
+    intro ks
+    induction ks with
+    | nil => intro acc h; exact h
+    | cons x r ih =>
+      intro acc hacc
+      simp only [List.foldl_cons]
+      apply ih
+      obtain ⟨d, n⟩ := acc
+      dsimp only
+      split
+      · rename_i e hl
+        split
+        · exact inv_del _ _ hacc
+        · exact inv_poke _ _ _ hacc (live_nonEmpty (e := e) hacc hl)
+      · split
+        · exact inv_del _ _ hacc
+        · exact hacc
+  exact key ks (db, 0) h
+theorem bitfield_inv (ops : List BfOp) : (cmdBitfield c db k ops).db.Inv := by
+  unfold cmdBitfield
+  split
+  · exact h
+  · exact bitfieldParsed_inv c db k h _
+theorem setbit_inv : (cmdSetBit c db k i j).db.Inv := by
+  unfold cmdSetBit
+  split
+  · exact h
+  · split
+    · exact h
+    · have hb := bitfieldParsed_inv c db k h [{ kind := .set, signed := false, width := 1, off := i, value := j, ov := .wrap }]
+      dsimp only
+      split <;> exact hb
+theorem bitcount_inv (r : Option (Int × Int × Bool)) : (cmdBitCount c db k r).db.Inv := by
+  unfold cmdBitCount
+  split
+  · exact h
+  · split_ifs <;> first
+      | exact h
+      | (extract_lets; split_ifs <;> exact h)
+  · exact h
+theorem lmpop_inv : (cmdLMPop c db ks b n).db.Inv := by
+  have go : ∀ ks, (cmdLMPop.go c db b n ks).db.Inv := by
+    intro ks
+    induction ks with
+    | nil => exact h
+    | cons x r ih =>
+      unfold cmdLMPop.go
+      split
+      · exact h
+      · exact ih
+      · split
+        · exact ih
+        · dsimp only [R.ok]; exact inv_upd _ _ _ _ _ h
+  unfold cmdLMPop
+  exact go ks
+theorem bpop_inv : (runCmd.go c b db ks).db.Inv := by
+  induction ks with
+  | nil => exact h
+  | cons x r ih =>
+    unfold runCmd.go
+    split
+    · exact h
+    · exact ih
+    · split
+      · exact ih
+      · dsimp only [R.ok]; exact inv_upd _ _ _ _ _ h
+theorem sortFinish_inv (store : Option Bytes) (out : List Value) (hint : Match) :
+    (sortFinish db store out hint).db.Inv := by
+  unfold sortFinish
+  split
+  · exact h
+  · split
+    · exact inv_del _ _ h
+    · rename_i hne
+      refine inv_put _ _ _ _ (inv_del _ _ h) ?_
+      refine nonEmpty_list ?_
+      intro hn
+      simp only [List.map_eq_nil_iff] at hn
+      subst hn
+      simp at hne
+theorem sort_inv (by_ : Option Bytes) (limit : Option (Int × Int)) (gets : List Bytes) (store : Option Bytes) :
+    (cmdSort c db k by_ limit gets b b2 store).db.Inv := by
+  unfold cmdSort
+  split
+  · exact h
+  · exact sortFinish_inv db h _ _ _
+  · split
+    · exact h
+    · exact sortFinish_inv db h _ _ _
+
+end
+
+/-! LMOVE creates its destination (empty) before it pops: between its two halves the invariant holds for
+    every key but the destination, and the push restores it. -/
+
+/-- the invariant, except that key `k` may hold an empty aggregate -/
+structure Db.InvX (k : Bytes) (db : Db) : Prop where
+  unique : (db.keys.map (·.1)).Nodup
+  noEmpty : ∀ p ∈ db.keys, (p.1 == k) = false → p.2.val.nonEmpty = true
+
+theorem invx_of_inv (k : Bytes) (db : Db) (h : db.Inv) : db.InvX k := ⟨h.unique, fun p hp _ => h.noEmpty p hp⟩
+
+theorem mem_ainsert_strong {α} (k : Bytes) (v : α) (l : List (Bytes × α)) (p : Bytes × α)
+    (hu : (l.map (·.1)).Nodup) (hp : p ∈ ainsert k v l) : p = (k, v) ∨ (p ∈ l ∧ (p.1 == k) = false) := by
+  induction l with
+  | nil => simp [ainsert] at hp; exact Or.inl hp
+  | cons q r ih =>
+    obtain ⟨k', v'⟩ := q
+    simp only [List.map_cons, List.nodup_cons] at hu
+    by_cases hk : (k' == k) = true
+    · have e : k' = k := by simpa using hk
+      subst e
+      simp only [ainsert, beq_self_eq_true, ↓reduceIte, List.mem_cons] at hp
+      rcases hp with hp | hp
+      · exact Or.inl hp
+      · right
+        refine ⟨List.mem_cons_of_mem _ hp, ?_⟩
+        cases hpk : p.1 == k' with
+        | false => rfl
+        | true =>
+          have : p.1 = k' := by simpa using hpk
+          exact absurd (List.mem_map.mpr ⟨p, hp, this⟩) hu.1
+    · simp only [ainsert, hk, Bool.false_eq_true, ↓reduceIte, List.mem_cons] at hp
+      rcases hp with hp | hp
+      · right
+        subst hp
+        exact ⟨List.mem_cons_self, by simpa using hk⟩
+      · rcases ih hu.2 hp with h1 | ⟨h1, h2⟩
+        · exact Or.inl h1
+        · exact Or.inr ⟨List.mem_cons_of_mem _ h1, h2⟩
+
+theorem invx_put_self (k : Bytes) (db : Db) (v : Val) (e : Option Int) (h : db.InvX k) : (db.put k v e).InvX k := by
+  constructor
+  · exact ainsert_keys_nodup k _ db.keys h.unique
+  · intro p hp hne
+    rcases mem_ainsert_strong k _ db.keys p h.unique hp with e1 | ⟨hm, _⟩
+    · subst e1; simp at hne
+    · exact h.noEmpty p hm hne
+
+theorem invx_poke (k k' : Bytes) (db : Db) (e : Entry) (h : db.InvX k) (hv : e.val.nonEmpty = true) : (db.poke k' e).InvX k := by
+  constructor
+  · exact ainsert_keys_nodup k' _ db.keys h.unique
+  · intro p hp hne
+    rcases mem_ainsert k' _ db.keys p hp with e1 | hm
+    · subst e1; exact hv
+    · exact h.noEmpty p hm hne
+
+theorem invx_del (k k' : Bytes) (db : Db) (h : db.InvX k) : (db.del k').InvX k := by
+  unfold Db.del
+  split
+  · exact ⟨aerase_keys_nodup k' db.keys h.unique, fun p hp hne => h.noEmpty p (mem_aerase k' db.keys p hp) hne⟩
+  · exact h
+
+theorem invx_setDirty (k : Bytes) (db : Db) (h : db.InvX k) : db.setDirty.InvX k := ⟨h.unique, h.noEmpty⟩
+
+theorem invx_update (k k' : Bytes) (db : Db) (e : Entry) (v : Val) (h : db.InvX k) : (db.update k' e v).InvX k := by
+  unfold Db.update
+  cases v with
+  | str b => exact invx_setDirty _ _ (invx_poke k k' db _ h (by simp [Val.nonEmpty]))
+  | corrupt f => exact invx_setDirty _ _ (invx_poke k k' db _ h (by simp [Val.nonEmpty]))
+  | list l =>
+    simp only
+    by_cases he : l.isEmpty = true
+    · simp only [he, ↓reduceIte]; exact invx_setDirty _ _ (invx_del k k' db h)
+    · simp only [he, Bool.false_eq_true, ↓reduceIte]
+      exact invx_setDirty _ _ (invx_poke k k' db _ h (by simp [Val.nonEmpty, he]))
+  | hash l =>
+    simp only
+    by_cases he : l.isEmpty = true
+    · simp only [he, ↓reduceIte]; exact invx_setDirty _ _ (invx_del k k' db h)
+    · simp only [he, Bool.false_eq_true, ↓reduceIte]
+      exact invx_setDirty _ _ (invx_poke k k' db _ h (by simp [Val.nonEmpty, he]))
+  | set l =>
+    simp only
+    by_cases he : l.isEmpty = true
+    · simp only [he, ↓reduceIte]; exact invx_setDirty _ _ (invx_del k k' db h)
+    · simp only [he, Bool.false_eq_true, ↓reduceIte]
+      exact invx_setDirty _ _ (invx_poke k k' db _ h (by simp [Val.nonEmpty, he]))
+
+theorem bump_invx (k : Bytes) (c : Ctx) (db : Db) (e : Entry) (h : db.InvX k) : (bump c db e).1.InvX k := by
+  unfold bump; split
+  · exact h
+  · exact ⟨h.unique, h.noEmpty⟩
+
+theorem invx_upd (k k' : Bytes) (c : Ctx) (db : Db) (e : Entry) (v : Val) (h : db.InvX k) : (upd c db k' e v).InvX k := by
+  unfold upd
+  exact invx_update k k' _ _ _ (bump_invx k c db e h)
+
+/-- the push into the destination restores the full invariant -/
+theorem inv_of_invx_poke (k : Bytes) (db : Db) (e : Entry) (h : db.InvX k) (hv : e.val.nonEmpty = true) : (db.poke k e).Inv := by
+  constructor
+  · exact ainsert_keys_nodup k _ db.keys h.unique
+  · intro p hp
+    rcases mem_ainsert_strong k _ db.keys p h.unique hp with e1 | ⟨hm, hne⟩
+    · subst e1; exact hv
+    · exact h.noEmpty p hm hne
+
+theorem lmove_inv (c : Ctx) (db : Db) (k k2 : Bytes) (b b2 : Bool) (h : db.Inv) : (cmdLMove c db k k2 b b2).db.Inv := by
+  unfold cmdLMove
+  split
+  · exact h
+  · exact h
+  · split
+    · exact h
+    · dsimp only
+      split
+      · exact h
+      · split
+        · repeat' (first | exact h | exact inv_setDirty _ (inv_del _ _ h) | exact inv_upd _ _ _ _ _ h | split | dsimp only)
+        · -- destination created if missing, source updated, destination pushed
+          have h1 : (match (‹Option (Entry × List Bytes)› : Option (Entry × List Bytes)) with
+              | none => db.put k2 (.list []) none
+              | some _ => db).InvX k2 := by
+            split
+            · exact invx_put_self k2 db _ _ (invx_of_inv k2 db h)
+            · exact invx_of_inv k2 db h
+          have h2 := invx_upd k2 k c _ ‹Entry› (.list (if b = true then List.drop 1 ‹List Bytes› else (‹List Bytes›).dropLast)) h1
+          split
+          · rename_i de hde
+            have h3 := bump_invx k2 c _ de h2
+            refine inv_setDirty _ (inv_of_invx_poke k2 _ _ h3 ?_)
+            dsimp only
+            split
+            · rfl
+            · refine nonEmpty_list ?_; simp
+          · exact h
+
+/-- what the argument parser guarantees about the element lists of the creating commands -/
+def Cmd.wf : Cmd → Bool
+  | .push _ vs _ _ => !vs.isEmpty
+  | .hset _ fvs _ _ => !fvs.isEmpty
+  | .sadd _ ms => !ms.isEmpty
+  | _ => true
+
+theorem ite_some_cases {α} {c : Prop} [Decidable c] {t e : Option α} {r : α} (h : (if c then t else e) = some r) :
+    (c ∧ t = some r) ∨ (¬c ∧ e = some r) := by
+  split at h
+  · exact Or.inl ⟨‹_›, h⟩
+  · exact Or.inr ⟨‹_›, h⟩
+
+/-- every command an optional parse result may hold is well-formed -/
+def wfO (o : Option Cmd) : Prop := ∀ c, o = some c → c.wf = true
+theorem wfO_none : wfO none := fun _ h => by cases h
+theorem wfO_some {c : Cmd} (h : c.wf = true) : wfO (some c) := fun _ e => by cases e; exact h
+theorem wfO_pure {c : Cmd} (h : c.wf = true) : wfO (pure c) := wfO_some h
+theorem wfO_map {α} {x : Option α} {f : α → Cmd} (h : ∀ a, (f a).wf = true) : wfO (x.map f) := by
+  intro c e
+  cases x with
+  | none => cases e
+  | some a => cases e; exact h a
+theorem wfO_bind {α} {x : Option α} {f : α → Option Cmd} (h : ∀ a, wfO (f a)) : wfO (x >>= f) := by
+  intro c e
+  cases x with
+  | none => cases e
+  | some a => exact h a c e
+theorem wfO_bind' {α} {x : Option α} {f : α → Option Cmd} (h : ∀ a, wfO (f a)) : wfO (x.bind f) := by
+  intro c e
+  cases x with
+  | none => cases e
+  | some a => exact h a c e
+theorem wfO_ite {p : Prop} [Decidable p] {a b : Option Cmd} (ha : wfO a) (hb : wfO b) : wfO (if p then a else b) := by
+  split <;> assumption
+
+theorem wfO_hset (k f v : Bytes) (r : List Bytes) (x y : Bool) :
+    wfO (Option.map (fun fvs => Cmd.hset k fvs x y) (pairsOf (f :: v :: r))) := by
+  intro c e
+  unfold pairsOf at e
+  cases hp : pairsOf r with
+  | none => rw [hp] at e; cases e
+  | some l => rw [hp] at e; cases e; rfl
+
+macro "wf_leaf" : tactic => `(tactic| (repeat' (first
+  | exact wfO_none
+  | exact wfO_hset _ _ _ _ _ _
+  | exact wfO_some rfl
+  | exact wfO_pure rfl
+  | (refine wfO_map fun _ => rfl)
+  | (refine wfO_bind fun _ => ?_)
+  | (refine wfO_bind' fun _ => ?_)
+  | (refine wfO_ite ?_ ?_)
+  | split
+  | dsimp only)))
+
+set_option maxHeartbeats 1600000 in
+theorem parseCmd_wf (name : Bytes) (args : List Bytes) (cmd : Cmd) (h : parseCmd name args = some cmd) :
+    cmd.wf = true := by
+  unfold parseCmd at h
+  extract_lets n at h
+  iterate 106 ((rcases ite_some_cases h with ⟨-, h'⟩ | ⟨-, h'⟩ <;> clear h <;> (have h := h'; clear h')); rotate_left)
+  · cases h
+  all_goals (refine (?_ : wfO _) cmd h; clear h)
+  all_goals wf_leaf
+
+
+theorem parseCmdQ_wf (q : Quirks) (name : Bytes) (args : List Bytes) (cmd : Cmd) (h : parseCmdQ q name args = some cmd) :
+    cmd.wf = true := by
+  unfold parseCmdQ at h
+  split at h
+  · unfold sintercardByNumkeys at h
+    refine (?_ : wfO _) cmd h
+    wf_leaf
+  · exact parseCmd_wf name args cmd h
+
+/-! ### every command keeps the invariant, in every database of the server -/
+
+/-- every database of the server satisfies the invariant -/
+def State.KInv (s : State) : Prop := ∀ r, (s.getDb r).Inv
+
+theorem kinv_init : ({} : State).KInv := fun r => by
+  have : ({} : State).getDb r = {} := by simp [State.getDb]
+  rw [this]; exact inv_init
+
+theorem kinv_of_getDb_eq (s s' : State) (hs : s.KInv) (h : ∀ r, s'.getDb r = s.getDb r) : s'.KInv := by
+  intro r; rw [h r]; exact hs r
+
+theorem onDb_kinv (s : State) (ref : Nat) (f : Db → R) (hs : s.KInv) (h : (f (s.getDb ref)).db.Inv) :
+    (onDb s ref f).st.KInv := by
+  intro r
+  unfold onDb
+  by_cases e : (ref == r) = true
+  · have : ref = r := by simpa using e
+    subst this
+    simp only [getDb_setDb_self]
+    exact h
+  · simp only [getDb_setDb_ne _ _ _ _ (by simpa using e)]
+    exact hs r
+
+theorem getDb_flush_heap (s : State) (r : Nat) :
+    ({ s with heap := s.heap.map fun (p : Nat × Db) => (p.1, ({ keys := [], nextId := p.2.nextId, dirty := false } : Db)) } : State).getDb r
+      = { keys := [], nextId := (s.getDb r).nextId, dirty := false } := by
+  simp only [State.getDb]
+  induction s.heap with
+  | nil => rfl
+  | cons p t ih =>
+    simp only [List.map_cons, List.find?_cons]
+    split
+    · rfl
+    · exact ih
+
+theorem inv_flushed (n : Nat) : ({ keys := [], nextId := n, dirty := false } : Db).Inv := ⟨by simp, by simp⟩
+
+/-- **No empty key, no duplicate key — after any command.** Every command the argument parser can
+    produce (`parseCmdQ_wf`), with any arguments, on any state whose databases satisfy the invariant,
+    leaves every database of the server with unique keys and without an empty list, hash or set —
+    however the last element went (pop, LREM, LTRIM, LMOVE, SREM, SMOVE, HDEL, SPOP-like paths, STORE forms
+    with an empty result, SORT … STORE of nothing). -/
+theorem runCmd_inv (c : Ctx) (s : State) (conn ref : Nat) (m : Bool) (cmd : Cmd) (hw : cmd.wf = true)
+    (hs : s.KInv) : (runCmd c s conn ref m cmd).st.KInv := by
+  cases cmd
+  case copy a b rep dbOpt =>
+    simp only [runCmd]
+    split
+    · exact hs
+    · exact onDb_kinv s ref _ hs (copy_inv (h := hs ref) ..)
+  case lmpop nk ks l cnt =>
+    simp only [runCmd]
+    split
+    · exact hs
+    · split
+      · exact hs
+      · exact onDb_kinv s ref _ hs (lmpop_inv (h := hs ref) ..)
+  case set a0 a1 a2 a3 => simp only [runCmd]; exact onDb_kinv s ref _ hs (set_inv (h := hs ref) ..)
+  case append a0 a1 => simp only [runCmd]; exact onDb_kinv s ref _ hs (append_inv (h := hs ref) ..)
+  case get a0 => simp only [runCmd]; exact onDb_kinv s ref _ hs (get_inv (h := hs ref) ..)
+  case getdel a0 => simp only [runCmd]; exact onDb_kinv s ref _ hs (getdel_inv (h := hs ref) ..)
+  case getex a0 a1 => simp only [runCmd]; exact onDb_kinv s ref _ hs (getex_inv (h := hs ref) ..)
+  case strlen a0 => simp only [runCmd]; exact onDb_kinv s ref _ hs (strlen_inv (h := hs ref) ..)
+  case getrange a0 a1 a2 => simp only [runCmd]; exact onDb_kinv s ref _ hs (getrange_inv (h := hs ref) ..)
+  case setrange a0 a1 a2 => simp only [runCmd]; exact onDb_kinv s ref _ hs (setrange_inv (h := hs ref) ..)
+  case incrby a0 a1 => simp only [runCmd]; exact onDb_kinv s ref _ hs (incrby_inv (h := hs ref) ..)
+  case decrby a0 a1 => simp only [runCmd]; exact onDb_kinv s ref _ hs (decrby_inv (h := hs ref) ..)
+  case incrbyfloat a0 a1 => simp only [runCmd]; exact onDb_kinv s ref _ hs (incrbyfloat_inv (h := hs ref) ..)
+  case mget a0 => simp only [runCmd]; exact onDb_kinv s ref _ hs (mget_inv (h := hs ref) ..)
+  case mset a0 a1 => simp only [runCmd]; exact onDb_kinv s ref _ hs (mset_inv (h := hs ref) ..)
+  case push a0 a1 a2 a3 => simp only [runCmd]; exact onDb_kinv s ref _ hs (push_inv (h := hs ref) (hks := by simpa [Cmd.wf] using hw) ..)
+  case pop a0 a1 a2 => simp only [runCmd]; exact onDb_kinv s ref _ hs (by apply inv_pop; exact hs ref)
+  case llen a0 => simp only [runCmd]; exact onDb_kinv s ref _ hs (llen_inv (h := hs ref) ..)
+  case lindex a0 a1 => simp only [runCmd]; exact onDb_kinv s ref _ hs (lindex_inv (h := hs ref) ..)
+  case lrange a0 a1 a2 => simp only [runCmd]; exact onDb_kinv s ref _ hs (lrange_inv (h := hs ref) ..)
+  case lset a0 a1 a2 => simp only [runCmd]; exact onDb_kinv s ref _ hs (lset_inv (h := hs ref) ..)
+  case linsert a0 a1 a2 a3 => simp only [runCmd]; exact onDb_kinv s ref _ hs (linsert_inv (h := hs ref) ..)
+  case lrem a0 a1 a2 => simp only [runCmd]; exact onDb_kinv s ref _ hs (by apply inv_lrem; exact hs ref)
+  case ltrim a0 a1 a2 => simp only [runCmd]; exact onDb_kinv s ref _ hs (by apply inv_ltrim; exact hs ref)
+  case lpos a0 a1 a2 a3 a4 => simp only [runCmd]; exact onDb_kinv s ref _ hs (lpos_inv (h := hs ref) ..)
+  case lmove a0 a1 a2 a3 => simp only [runCmd]; exact onDb_kinv s ref _ hs (lmove_inv _ _ _ _ _ _ (hs ref))
+  case hset a0 a1 a2 a3 => simp only [runCmd]; exact onDb_kinv s ref _ hs (hset_inv (h := hs ref) (hkvs := by simpa [Cmd.wf] using hw) ..)
+  case hget a0 a1 => simp only [runCmd]; exact onDb_kinv s ref _ hs (hget_inv (h := hs ref) ..)
+  case hmget a0 a1 => simp only [runCmd]; exact onDb_kinv s ref _ hs (hmget_inv (h := hs ref) ..)
+  case hgetall a0 => simp only [runCmd]; exact onDb_kinv s ref _ hs (hgetall_inv (h := hs ref) ..)
+  case hkeys a0 a1 => simp only [runCmd]; exact onDb_kinv s ref _ hs (hkeys_inv (h := hs ref) ..)
+  case hlen a0 => simp only [runCmd]; exact onDb_kinv s ref _ hs (hlen_inv (h := hs ref) ..)
+  case hexists a0 a1 => simp only [runCmd]; exact onDb_kinv s ref _ hs (hexists_inv (h := hs ref) ..)
+  case hstrlen a0 a1 => simp only [runCmd]; exact onDb_kinv s ref _ hs (hstrlen_inv (h := hs ref) ..)
+  case hdel a0 a1 => simp only [runCmd]; exact onDb_kinv s ref _ hs (by apply inv_hdel; exact hs ref)
+  case hincrby a0 a1 a2 => simp only [runCmd]; exact onDb_kinv s ref _ hs (hincrby_inv (h := hs ref) ..)
+  case hincrbyfloat a0 a1 a2 => simp only [runCmd]; exact onDb_kinv s ref _ hs (hincrbyfloat_inv (h := hs ref) ..)
+  case sadd a0 a1 => simp only [runCmd]; exact onDb_kinv s ref _ hs (sadd_inv (h := hs ref) (hks := by simpa [Cmd.wf] using hw) ..)
+  case srem a0 a1 => simp only [runCmd]; exact onDb_kinv s ref _ hs (by apply inv_srem; exact hs ref)
+  case scard a0 => simp only [runCmd]; exact onDb_kinv s ref _ hs (scard_inv (h := hs ref) ..)
+  case sismember a0 a1 => simp only [runCmd]; exact onDb_kinv s ref _ hs (sismember_inv (h := hs ref) ..)
+  case smismember a0 a1 => simp only [runCmd]; exact onDb_kinv s ref _ hs (smismember_inv (h := hs ref) ..)
+  case smembers a0 => simp only [runCmd]; exact onDb_kinv s ref _ hs (smembers_inv (h := hs ref) ..)
+  case smove a0 a1 a2 => simp only [runCmd]; exact onDb_kinv s ref _ hs (smove_inv (h := hs ref) ..)
+  case salg a0 a1 => simp only [runCmd]; exact onDb_kinv s ref _ hs (setalgebra_inv (h := hs ref) ..)
+  case salgStore a0 a1 a2 => simp only [runCmd]; exact onDb_kinv s ref _ hs (setalgebrastore_inv (h := hs ref) ..)
+  case sintercard a0 a1 a2 => simp only [runCmd]; exact onDb_kinv s ref _ hs (sintercard_inv (h := hs ref) ..)
+  case del a0 a1 => simp only [runCmd]; exact onDb_kinv s ref _ hs (del_inv (h := hs ref) ..)
+  case exists_ a0 => simp only [runCmd]; exact onDb_kinv s ref _ hs (exists_inv (h := hs ref) ..)
+  case touch a0 => simp only [runCmd]; exact onDb_kinv s ref _ hs (exists_inv (h := hs ref) ..)
+  case type_ a0 => simp only [runCmd]; exact onDb_kinv s ref _ hs (type_inv (h := hs ref) ..)
+  case rename a0 a1 a2 => simp only [runCmd]; exact onDb_kinv s ref _ hs (rename_inv (h := hs ref) ..)
+  case sort a0 a1 a2 a3 a4 a5 a6 => simp only [runCmd]; exact onDb_kinv s ref _ hs (sort_inv (h := hs ref) ..)
+  case persist a0 => simp only [runCmd]; exact onDb_kinv s ref _ hs (persist_inv (h := hs ref) ..)
+  case ttl a0 a1 => simp only [runCmd]; exact onDb_kinv s ref _ hs (ttl_inv (h := hs ref) ..)
+  case getbit a0 a1 => simp only [runCmd]; exact onDb_kinv s ref _ hs (getbit_inv (h := hs ref) ..)
+  case setbit a0 a1 a2 => simp only [runCmd]; exact onDb_kinv s ref _ hs (setbit_inv (h := hs ref) ..)
+  case bitcount a0 a1 => simp only [runCmd]; exact onDb_kinv s ref _ hs (bitcount_inv (h := hs ref) ..)
+  case bitpos a0 a1 a2 a3 => simp only [runCmd]; exact onDb_kinv s ref _ hs (bitpos_inv (h := hs ref) ..)
+  case bitop a0 a1 a2 => simp only [runCmd]; exact onDb_kinv s ref _ hs (bitop_inv (h := hs ref) ..)
+  case bitfield a0 a1 a2 => simp only [runCmd]; exact onDb_kinv s ref _ hs (bitfield_inv (h := hs ref) ..)
+  case expire k n u a o => simp only [runCmd]; exact onDb_kinv s ref _ hs (expireat_inv (h := hs ref) ..)
+  case bpop ks l => simp only [runCmd]; exact onDb_kinv s ref _ hs (bpop_inv (h := hs ref) ..)
+  case select i =>
+    simp only [runCmd]
+    split
+    · exact hs
+    · apply kinv_of_getDb_eq s _ hs
+      intro r
+      simp only [getDb_setSession]
+      exact getDb_tableRef s _ r
+  case flushdb =>
+    simp only [runCmd]
+    split
+    · apply kinv_of_getDb_eq s _ hs
+      intro r
+      simp only [getDb_setSession]
+      rw [getDb_tableRef]
+      rfl
+    · intro r
+      by_cases e : ((s.tableRef (s.session conn).dbIdx).2 == r) = true
+      · have : (s.tableRef (s.session conn).dbIdx).2 = r := by simpa using e
+        subst this
+        simp only [getDb_setDb_self]
+        exact inv_flushed _
+      · simp only [getDb_setDb_ne _ _ _ _ (by simpa using e)]
+        rw [getDb_tableRef]
+        exact hs r
+  case flushall =>
+    simp only [runCmd]
+    split
+    · apply kinv_of_getDb_eq s _ hs
+      intro r
+      simp only [getDb_setSession]
+      rw [getDb_tableRef]
+      rfl
+    · intro r
+      rw [getDb_flush_heap]
+      exact inv_flushed _
+  case watch ks =>
+    simp only [runCmd]
+    split
+    · exact hs
+    · exact kinv_of_getDb_eq s _ hs (fun r => getDb_setSession _ _ _ r)
+  case unwatch => exact kinv_of_getDb_eq s _ hs (fun r => getDb_setSession _ _ _ r)
+  case hello v =>
+    simp only [runCmd]
+    split
+    · split
+      · exact hs
+      · exact kinv_of_getDb_eq s _ hs (fun r => getDb_setSession _ _ _ r)
+    · exact hs
+  case clientSetname nm =>
+    simp only [runCmd]
+    split
+    · exact hs
+    · exact kinv_of_getDb_eq s _ hs (fun r => getDb_setSession _ _ _ r)
+  case ping o => cases o <;> exact hs
+  case dbsize => simp only [runCmd]; split <;> exact hs
+  all_goals
+    simp only [runCmd]
+    first
+      | exact hs
+      | (apply onDb_kinv s ref _ hs; have h := hs ref; keepinv)
+
+
+/-- any history of commands the parser can produce keeps the invariant in every database -/
+theorem runEvents_inv (evs : List Ev) : ∀ (s : State), s.KInv → (∀ e ∈ evs, e.cmd.wf = true) →
+    (runEvents s evs).KInv := by
+  induction evs with
+  | nil => intro s hs _; exact hs
+  | cons e r ih =>
+    intro s hs hw
+    exact ih _ (runCmd_inv e.c s e.conn e.ref e.inMulti e.cmd (hw e List.mem_cons_self) hs)
+      (fun e' he' => hw e' (List.mem_cons_of_mem _ he'))
+
+/-- **A list, hash or set never exists empty** — in any database, after any history of commands
+    starting from the empty server: whatever is stored under a key has at least one element, and no key
+    is stored twice. -/
+theorem reachable_no_empty_key (evs : List Ev) (hw : ∀ e ∈ evs, e.cmd.wf = true) (r : Nat) (k : Bytes) (e : Entry)
+    (now : Int) (h : ((runEvents {} evs).getDb r).live now k = some e) : e.val.nonEmpty = true :=
+  live_nonEmpty (runEvents_inv evs {} kinv_init hw r) h
+
 end RedisEmu
